@@ -180,7 +180,7 @@ def execute(case, scratch):
     try:
         files = os.path.join(d, "files")
         os.makedirs(files)
-        for fn in ("r1", "r2"):
+        for fn in ("r1", "r2", "q3%20report"):
             with open(os.path.join(files, fn), "w") as f:
                 f.write(fn)
             os.utime(os.path.join(files, fn), (1600000000, 1600000000))
